@@ -127,6 +127,10 @@ pub fn resolve(inp: &str, out: &str) {
             let t_base = tokio::time::Instant::now();
             for qv in v["questions"].as_array().unwrap() {
                 let q = json_to_question(qv).expect("question");
+                // virtual time passing before this question (cache expiry between the questions of a sequence)
+                if let Some(ms) = qv["advance_ms"].as_u64() {
+                    tokio::time::advance(Duration::from_millis(ms)).await;
+                }
                 let script = Arc::new(Mutex::new(Script {
                     table: v["table"].as_array().cloned().unwrap_or_default(),
                     default: v["default"].clone(),
